@@ -61,7 +61,7 @@ def status_name(rc):
 
 def line_bytes(s, k, i):
     if k == "p":
-        return ("s%dp%d %s x03" % (s, i, HIT)).encode()
+        return (" s%dp%d %s x03 \t" % (s, i, HIT)).encode()        # blanks at both ends: nothing may strip them
     if k == "b":
         return ("s%db%d BIN " % (s, i)).encode() + b"\xff\xfe" + b" x03"
     if k == "L":
